@@ -133,11 +133,11 @@ def second_operands(z, cls, dt, backend):
 
 
 def first_signal(args):
-    """The operand whose type/metadata the result must carry: the first signal, unless a later signal is an instance of a
-    strict subclass (NumPy then dispatches to the subclass; left open)."""
+    """The operand whose type/metadata the result must carry: the first signal (also when a later signal is an instance of a
+    strict subclass, which NumPy asks first)."""
     sigs = [a for a in args if isinstance(a, pb.Signal)]
-    amb = any(type(s) is not type(sigs[0]) and isinstance(s, type(sigs[0])) for s in sigs[1:])
-    return sigs[0], amb
+    # (NumPy dispatches to the most derived class first; the statement still names the FIRST signal operand)
+    return sigs[0], False
 
 
 def check_call(res, case, uf, args, sub, kwargs=None):
@@ -416,6 +416,19 @@ def forms_case(case, res):
                 res.violation("kwargs|where=|values", "np.add(z, 5, out=t, where=mask) differs from the same call on the data", case, None)
         except Exception as e:
             res.violation("kwargs|where=|raised", f"{type(e).__name__}: {e}", case, None)
+        # the mask given as a SIGNAL (the result of a comparison of signals)
+        tgt2 = make_sig(cls, dt, be, True)
+        tref2 = materialise(tgt2.data).copy()
+        msig = pb.Signal(mask.copy(), sample_rate=zk.sample_rate)
+        np.multiply(refd, 3, out=tref2, where=mask)
+        try:
+            r = np.multiply(zk, 3, out=tgt2, where=msig)
+            res.transitions += 1
+            if r is not tgt2 or not values_equal(tgt2.data, tref2):
+                res.violation("kwargs|where= signal|values", "np.multiply(z, 3, out=t, where=<boolean Signal>) differs from the same call on the data",
+                              case, None)
+        except BaseException as e:
+            res.violation("kwargs|where= signal|raised", f"{type(e).__name__}: {str(e)[:80]}", case, None)
         res.hits["ufunc keyword arguments"] += 1
     # out= / in-place with signals of ZERO time samples (valid signals; must still return the given object)
     if kind != "b":
@@ -552,7 +565,12 @@ def forms_case(case, res):
                      ("accumulate", lambda: np.add.accumulate(z)), ("reduceat", lambda: np.add.reduceat(z, [0, 2])),
                      ("outer", lambda: np.multiply.outer(z, z)), ("at", lambda: np.add.at(z, [0], 1)),
                      ("matmul", lambda: np.matmul(z, z)), ("@", lambda: z @ z), ("r@", lambda: np.ones((2, 4)) @ z),
-                     ("np.sum", lambda: np.sum(z)), ("maximum.reduce", lambda: np.maximum.reduce(z))):
+                     ("np.sum", lambda: np.sum(z)), ("maximum.reduce", lambda: np.maximum.reduce(z)),
+                     # the other generalized ufuncs contract an axis too (here: the time axis)
+                     ("vecdot axis=0", lambda: np.vecdot(z, z, axis=0)), ("vecdot", lambda: np.vecdot(z, z)),
+                     ("vecmat", lambda: np.vecmat(np.ones(len(z)), z)), ("matvec", lambda: np.matvec(z, np.ones(z.shape[-1])))):
+        if what in ("vecdot", "vecdot axis=0", "vecmat", "matvec") and (z.ndim < 2 or not hasattr(np, what.split()[0])):
+            continue
         res.transitions += 1
         res.state((cls, dt, be, "refuse", what))
         try:
@@ -624,8 +642,7 @@ def main(argv=None):
                        "python float/complex scalar with integer or bool signal", "signals of two classes", "operators",
                        "out= returns the same object", "two-output out= tuple", "in-place chains", "zero-length out= target", "masked-array data", "in-place with scaled dimensionless Quantity", "result modified in place, operand unchanged", "ufunc keyword arguments", "refused with TypeError",
                        "array conversion", "conversion, in-place write, conversion"],
-        assumptions=["NumPy dispatches a binary ufunc to a strict-subclass operand first, so for (superclass signal, subclass signal) the "
-                     "type of the result is left open", "for Dask data an error may surface at compute time"],
+        assumptions=["for Dask data an error may surface at compute time"],
         argv=argv, chunksize=1)
 
 
